@@ -435,7 +435,8 @@ func (v *env) edit(x *explore.X, d *gen.Doc, muts int) []string {
 	var names []string
 	for i := 0; i < muts; i++ {
 		ms := mutations(v.s, d)
-		k := x.Dev(len(ms)+1, "mutation")
+		// the second edit costs two deviations: pairs of edits are explored on simpler documents
+		k := x.DevW(len(ms)+1, i+1, "mutation")
 		if k == 0 {
 			break
 		}
@@ -758,7 +759,7 @@ func run(c *core.Ctx) {
 	v := &env{c: c, f: f, s: s}
 	c.R.Rule = "case = one syntactically valid executable document over the kitchen schema (plus fields with a required argument and one argument per input type shape), from five enumerated spaces: (a) generator documents (query, mutation and subscription operations) within a deviation budget, each with <= k injected edits from the mutation alphabet (one per error class of the property and per site); (b) every literal of the literal menu in every argument position, every variable type of the type menu in every position (bare, in a list, in an input field) with and without default; (c) fragment topologies: operation body and <= 3 fragment bodies over a menu with colliding response keys and spreads; (d) mutual-exclusivity orders: n inline fragments on the two object types of an interface whose sub-selections share a key directly and through fragments; (e) mutation and subscription documents on a query-only schema (the operation has no root type) with <= k injected edits. Each document is validated by each of the 24 exported rules alone, by SpecifiedRules, and (when invalid) through Do; oracle = M-rules (verif/h/mrules), brute-force evaluators without memoisation; error locations must lie in the document and start an offending node; non-trivial = document violates at least one rule; outcomes = distinct sets of violated rules"
 	c.R.Assumptions = []string{"M-rules (verif/h/mrules) states the validation rules of the edition the library implements (October-2016 specification / graphql-js 0.8; required arguments with defaults are still required, null is not a literal)", "documents render to ASCII so that columns are byte offsets", "Go toolchain"}
-	docDev := c.Pick(2, 3)
+	docDev := c.Pick(2, 2)
 	nmut := c.Pick(1, 2)
 	c.R.Bounds["generator_deviations"] = docDev
 	c.R.Bounds["injected_edits"] = nmut
@@ -775,7 +776,7 @@ func run(c *core.Ctx) {
 		if root != "query" {
 			dev--
 		}
-		e := c.Explorer(dev + nmut)
+		e := c.Explorer(dev + c.Pick(1, 2))
 		e.ShardLevel = 1
 		e.Run(func(x *explore.X, owned bool) uint64 {
 			f.W.X = x
@@ -799,7 +800,7 @@ func run(c *core.Ctx) {
 		v2 := &env{c: c, f: f2, s: s2}
 		for bi, base := range rootlessBase {
 			bi, base := bi, base
-			e := c.Explorer(nmut)
+			e := c.Explorer(c.Pick(1, 3))
 			e.Run(func(x *explore.X, owned bool) uint64 {
 				f2.W.X = x
 				d, perr := fromText(base)
